@@ -1,8 +1,14 @@
 """C02 — firing long Deferred chains / await loops uses constant stack.
 
 case = {"shape": ..., "result": "success"|"failure", "n": length,
-        "late": 0..2, "every": 1..3, "trail": 0|1}      (last three optional, chain shapes only)
+        "late": 0..2, "every": 1..3, "trail": 0|1,      (optional, chain shapes only)
+        "cls": ..., "park": 0..2}                       (optional)
 
+cls    "Deferred" | "subclass" | "mixed": the links (and the Deferreds a generator awaits) are plain
+       Deferreds, instances of a user subclass of Deferred (defined once per process), or alternate
+park   generators / coroutines only: 0 = every awaited Deferred has already fired; 1 = the generator
+       first really waits on an UNFIRED Deferred (fired later by the harness) and only then loops
+       over the already-fired ones; 2 = it parks again in the middle of the loop
 late   that many extra callbacks are added to link k+1 right after link k has started waiting on
        it (for k % every == 0), so they sit *behind* the continuation in the inner Deferred's
        callback list ("result observers attached as the chain is built")
@@ -37,10 +43,10 @@ META = dict(
     property="C02",
     level="exploration",
     technique="generated (shape, result kind, length) triples up to 2*10^4 (thorough 10^5) links; completion + final-result check and a stack-depth probe inside callbacks compared with the n=10 run of the same shape",
-    level_text="Seven chain/await shapes (chains also with callbacks queued behind the continuation of every link, added after the waiter parked, and with a trailing callback on every waiter) x {success, failure} x lengths {1, 2, 10, 999, 1001, 5000, 10^4, 2*10^4} (thorough: up to 10^5) are all run, plus Hypothesis-drawn lengths (dense around the recursion limit); each run must finish without RecursionError under the default recursion limit, deliver the expected result, and show a stack depth inside callbacks at the first/middle/last link that exceeds the n=10 depth of the same shape by at most 8 frames. Sampled lengths, not all lengths.",
+    level_text="Seven chain/await shapes (links and awaited Deferreds being plain Deferreds, instances of a Deferred subclass, or alternating; generators and coroutines also after having genuinely waited on an unfired Deferred once or twice; chains also with callbacks queued behind the continuation of every link, added after the waiter parked, and with a trailing callback on every waiter) x {success, failure} x lengths {1, 2, 10, 999, 1001, 5000, 10^4, 2*10^4} (thorough: up to 10^5) are all run, plus Hypothesis-drawn lengths (dense around the recursion limit); each run must finish without RecursionError under the default recursion limit, deliver the expected result, and show a stack depth inside callbacks at the first/middle/last link that exceeds the n=10 depth of the same shape by at most 8 frames. Sampled lengths, not all lengths.",
     level_note="The depth probe counts Python frames (sys._getframe); C-level recursion is not measured. chainDeferred chains are outside the statement (documented to recurse) and not generated. The recursion limit is set to 1000 for the duration of a case because Hypothesis raises it while it runs a test.",
     design_ref="§5 C02",
-    rule="case = (shape, result, n, late, every, trail). Non-trivial = n is larger than the recursion limit (1000), so a recursive implementation of that shape could not finish; distinct by the whole case. Classes: per shape, per result kind, length buckets, and the callback layout of the links (late observers behind the continuation / trailing callback on the waiter / plain).",
+    rule="case = (shape, result, n, late, every, trail, cls, park). Non-trivial = n is larger than the recursion limit (1000), so a recursive implementation of that shape could not finish; distinct by the whole case. Classes: per shape, per result kind, length buckets, and the callback layout of the links (late observers behind the continuation / trailing callback on the waiter / plain), the class of the Deferreds (plain / subclass / mixed) and whether a generator had really waited on an unfired Deferred before its run of already-fired ones.",
 )
 
 DEFAULT_LIMIT = 1000
@@ -62,11 +68,31 @@ def _depth():
     return n
 
 
-def _drive(shape, result, n, late=0, every=1, trail=0):
+_SUB = []
+
+
+def _subclass():
+    """A user subclass of Deferred, defined once per process."""
+    if not _SUB:
+        from twisted.internet.defer import Deferred
+
+        class VerifSubDeferred(Deferred):
+            pass
+        _SUB.append(VerifSubDeferred)
+    return _SUB[0]
+
+
+def _drive(shape, result, n, late=0, every=1, trail=0, cls="Deferred", park=0):
     """Build and fire one shape.  Returns dict(final=..., depths=[...], leftovers=int)."""
     from twisted.internet import defer
     from twisted.python.failure import Failure
     Deferred = defer.Deferred
+    Sub = _subclass()
+
+    def mk(k):
+        if cls == "Deferred" or (cls == "mixed" and k % 2 == 0):
+            return Deferred()
+        return Sub()
     depths = []
     base = _depth()
     final = []
@@ -81,12 +107,37 @@ def _drive(shape, result, n, late=0, every=1, trail=0):
 
     if shape in ("inline", "coroutine"):
         marks = {0, n // 2, n - 1}
+        parks = set() if not park else {0} if park == 1 else {0, n // 2}
+        pending = []
+        seen = {"parks": 0}
+
+        def fired(k):
+            if cls == "Deferred":
+                return defer.fail(TagError(k)) if fail else defer.succeed(k)
+            d = mk(k)
+            if fail:
+                d.errback(TagError(k))
+            else:
+                d.callback(k)
+            return d
+
+        def unfired(k):
+            d = mk(k + 1)
+            pending.append(d)
+            return d
+
         if shape == "inline":
             @defer.inlineCallbacks
             def loop():
                 got = 0
                 for k in range(n):
-                    d = defer.fail(TagError(k)) if fail else defer.succeed(k)
+                    if k in parks:
+                        try:
+                            yield unfired(k)
+                        except TagError:
+                            pass
+                        seen["parks"] += 1
+                    d = fired(k)
                     try:
                         v = yield d
                         if v == k:
@@ -104,7 +155,13 @@ def _drive(shape, result, n, late=0, every=1, trail=0):
             async def loop():
                 got = 0
                 for k in range(n):
-                    d = defer.fail(TagError(k)) if fail else defer.succeed(k)
+                    if k in parks:
+                        try:
+                            await unfired(k)
+                        except TagError:
+                            pass
+                        seen["parks"] += 1
+                    d = fired(k)
                     try:
                         v = await d
                         if v == k:
@@ -119,10 +176,23 @@ def _drive(shape, result, n, late=0, every=1, trail=0):
                 return ("end", got)
             out = defer.ensureDeferred(loop())
         out.addBoth(capture)
+        early = False
+        while pending:
+            if final:
+                early = True
+                break
+            d = pending.pop(0)
+            if fail:
+                d.errback(Failure(TagError("park")))
+            else:
+                d.callback("go")
+        if early:
+            return dict(final=final, expect=None, depths=depths, leftovers=0, called=True, early=True)
         expect = ("f", "TagError", ("end", n)) if fail else ("v", ("end", n))
-        return dict(final=final, expect=expect, depths=depths, leftovers=0, called=out.called)
+        return dict(final=final, expect=expect, depths=depths, leftovers=0, called=out.called,
+                    parks=(seen["parks"], len(parks)))
 
-    ds = [Deferred() for _ in range(n)]
+    ds = [mk(k) for k in range(n)]
     marks = {0, (n - 1) // 2, max(0, n - 2)}
     counts = {"late": 0, "trail": 0}
 
@@ -241,27 +311,33 @@ def run_case(ctx, case):
     late = int(case.get("late", 0)) if chain else 0
     every = max(1, int(case.get("every", 1)))
     trail = int(bool(case.get("trail", 0))) if chain else 0
+    cls = case.get("cls", "Deferred")
+    if cls not in ("Deferred", "subclass", "mixed"):
+        return
+    park = 0 if chain else min(2, max(0, int(case.get("park", 0))))
     old = sys.getrecursionlimit()
     sys.setrecursionlimit(DEFAULT_LIMIT)
     try:
         try:
-            ref = _drive(shape, result, min(n, 10), late, every, trail)
-            out = _drive(shape, result, n, late, every, trail)
+            ref = _drive(shape, result, min(n, 10), late, every, trail, cls, park)
+            out = _drive(shape, result, n, late, every, trail, cls, park)
         except RecursionError as e:
             out = None
             msg = repr(e)
     finally:
         sys.setrecursionlimit(old)
     layout = ("late" if late else "") + ("+" if late and trail else "") + ("trail" if trail else "") or "plain"
-    tag = "%s:%s" % (_family(shape), result) + ("" if layout == "plain" else ":" + layout)
+    tag = "%s:%s" % (_family(shape), result) + ("" if layout == "plain" else ":" + layout) \
+        + ("" if cls == "Deferred" else ":" + cls) + (":after-parking" if park else "")
     if out is None:
         ctx.violation("recursion-error:" + tag, case,
-                      "shape=%s result=%s n=%d late=%d every=%d trail=%d: RecursionError escaped (%s)"
-                      % (shape, result, n, late, every, trail, msg))
+                      "shape=%s result=%s n=%d late=%d every=%d trail=%d cls=%s park=%d: RecursionError escaped (%s)"
+                      % (shape, result, n, late, every, trail, cls, park, msg))
     for which, o, nn in (("n=10 reference run", ref, min(n, 10)), ("run", out, n)):
         if o.get("early"):
-            ctx.violation("paused-chain-ran-early:" + tag, case,
-                          "shape=%s n=%d: final callback ran while the innermost Deferred was paused" % (shape, nn))
+            ctx.violation("finished-early:" + tag, case,
+                          "shape=%s n=%d: final callback ran while the innermost Deferred was paused / while the "
+                          "generator was still parked on an unfired Deferred" % (shape, nn))
         if len(o["final"]) != 1:
             ctx.violation("not-completed:" + tag, case,
                           "shape=%s result=%s n=%d (%s): final callback ran %d times"
@@ -275,7 +351,7 @@ def run_case(ctx, case):
             ctx.violation("chain-links-not-drained:" + tag, case,
                           "shape=%s result=%s n=%d (%s): %d Deferreds of the chain still hold a result, "
                           "callbacks or a pause" % (shape, result, nn, which, o["leftovers"]))
-        for kind in ("late", "trail"):
+        for kind in ("late", "trail", "parks"):
             ran, want = o.get(kind, (0, 0))
             if ran != want:
                 ctx.violation("chain-callbacks-not-run-once:" + tag, case,
@@ -286,9 +362,9 @@ def run_case(ctx, case):
     d_ref, d_n = max(ref["depths"]), max(out["depths"])
     if d_n - d_ref > SLACK:
         ctx.violation("stack-depth-grows:" + tag, case,
-                      "shape=%s result=%s late=%d every=%d trail=%d: stack depth inside callbacks is %d frames "
-                      "at n=%d but %d at n=%d (allowed growth %d)"
-                      % (shape, result, late, every, trail, d_n, n, d_ref, min(n, 10), SLACK))
+                      "shape=%s result=%s late=%d every=%d trail=%d cls=%s park=%d: stack depth inside callbacks "
+                      "is %d frames at n=%d but %d at n=%d (allowed growth %d)"
+                      % (shape, result, late, every, trail, cls, park, d_n, n, d_ref, min(n, 10), SLACK))
     ctx.count("shape=" + shape)
     ctx.count("result=" + result)
     ctx.count("n<=10" if n <= 10 else "10<n<=1000" if n <= DEFAULT_LIMIT else "1000<n<=10000" if n <= 10000 else "n>10000")
@@ -297,11 +373,19 @@ def run_case(ctx, case):
                                "late": "callbacks queued behind the continuation (added after the waiter parked)",
                                "trail": "waiter has a trailing callback",
                                "late+trail": "late observers and trailing callbacks"}[layout])
+    ctx.count("class of the Deferreds: " + cls)
+    if not chain:
+        ctx.count("generator: " + ("every awaited Deferred already fired" if not park else
+                                   "really waited on an unfired Deferred before the run of fired ones"))
     md = ctx.extra.setdefault("max_depth_inside_callbacks", {})
     md[shape] = max(md.get(shape, 0), d_n)
     if n > DEFAULT_LIMIT:
         ctx.count("nontrivial")
-        ctx.nontrivial((shape, result, n, late, every if late else 1, trail))
+        ctx.nontrivial((shape, result, n, late, every if late else 1, trail, cls, park))
+        if park:
+            ctx.count("nontrivial after parking on an unfired Deferred")
+        if cls != "Deferred" and chain:
+            ctx.count("nontrivial chain of subclass / mixed links")
         if late:
             ctx.count("nontrivial with callbacks behind the continuation")
         if n >= 10000 and result == "failure":
@@ -320,8 +404,17 @@ def _fixed(ctx, lengths):
                     if shape in CHAIN_SHAPES:
                         yield dict(shape=shape, result=result, n=n, late=1, every=1, trail=0)
                         yield dict(shape=shape, result=result, n=n, late=0, every=1, trail=1)
+                        yield dict(shape=shape, result=result, n=n, cls="subclass")
+                        yield dict(shape=shape, result=result, n=n, late=1, every=1, trail=0, cls="mixed")
                         if n in (1001, 5000):
                             yield dict(shape=shape, result=result, n=n, late=2, every=2, trail=1)
+                            yield dict(shape=shape, result=result, n=n, late=0, trail=1, cls="mixed")
+                    else:
+                        yield dict(shape=shape, result=result, n=n, park=1)
+                        yield dict(shape=shape, result=result, n=n, park=2, cls="subclass")
+                        if n in (1001, 5000):
+                            yield dict(shape=shape, result=result, n=n, park=1, cls="mixed")
+                            yield dict(shape=shape, result=result, n=n, cls="subclass")
     enumerate_run(ctx, cases(), run_case)
 
 
@@ -343,5 +436,7 @@ def run(ctx):
         late=st.sampled_from([0, 1, 1, 2]),
         every=st.sampled_from([1, 1, 2, 3]),
         trail=st.sampled_from([0, 1]),
+        cls=st.sampled_from(["Deferred", "Deferred", "subclass", "mixed"]),
+        park=st.sampled_from([0, 1, 1, 2]),
     )
     hyp_run(ctx, strat, run_case, ctx.pick(200, 1500), label="lengths")
